@@ -22,8 +22,8 @@ func (h Held) clone() Held {
 	}
 	return n
 }
-func (h Held) Has(name string) bool     { return h[name] }
-func (h Held) HasAny(name string) bool  { return h[name] || h[name+":R"] }
+func (h Held) Has(name string) bool    { return h[name] }
+func (h Held) HasAny(name string) bool { return h[name] || h[name+":R"] }
 func (h Held) String() string {
 	var ks []string
 	for k := range h {
